@@ -27,6 +27,8 @@ type Holder struct {
 	Siblings bool     `json:"siblings,omitempty"`
 	Kind     string   `json:"kind"`
 
+	Discriminated bool `json:"under_discriminator,omitempty"` // variant of a oneOf/anyOf with a discriminator: the mapping names the reference
+
 	TFile     string   `json:"target_file"`
 	TPtr      []string `json:"target_pointer"`
 	Resolved  bool     `json:"resolved"`
@@ -236,6 +238,12 @@ func LoadGraph(fs FileSet) (*Graph, error) {
 	byNode := map[*V]*Holder{}
 	for _, h := range g.Holders {
 		byNode[h.node] = h
+		// .../oneOf/<i> or .../anyOf/<i> below an object that has a discriminator
+		if n := len(h.Path); n >= 2 && (h.Path[n-2] == "oneOf" || h.Path[n-2] == "anyOf") {
+			if owner := doctree.At(g.Trees[h.File], doctree.Path(h.Path[:n-2])); owner != nil && owner.Kind == jsonv.Object && owner.Get("discriminator") != nil {
+				h.Discriminated = true
+			}
+		}
 	}
 	for _, h := range g.Holders {
 		g.resolve(h)
@@ -398,7 +406,7 @@ func (g *Graph) resolve(h *Holder) {
 func (g *Graph) Inlinable() []int {
 	var out []int
 	for i, h := range g.Holders {
-		if h.Resolved && !h.Recursive && !h.Siblings && h.Kind != "link" && h.Kind != "callback" && h.Kind != "document" {
+		if h.Resolved && !h.Recursive && !h.Siblings && !h.Discriminated && h.Kind != "link" && h.Kind != "callback" && h.Kind != "document" {
 			out = append(out, i)
 		}
 	}
